@@ -6,7 +6,7 @@ check must fire) and selftest/preserving/*.diff (behaviour-preserving edits: eve
 silent): create a scratch git worktree of /repo outside /repo and /verif, apply the patch, confirm the
 variant still compiles (the fact extraction *is* a `cargo check`), run the checks against the scratch
 tree, remove the worktree again.
-Usage: selftest/run.py [--only substr] [--props C01,C02] [--keep]
+Usage: selftest/run.py [--only substr] [--props C01,C02] [--jobs N]
 """
 import argparse, glob, json, os, re, shutil, subprocess, sys, tempfile, time
 
@@ -23,15 +23,21 @@ def main():
     ap.add_argument("--only", default="")
     ap.add_argument("--props", default="")
     ap.add_argument("--tier", default="quick")
+    ap.add_argument("--jobs", type=int, default=5)
     ap.add_argument("--all-props", action="store_true", help="run every property against every mutant (false-alarm scan)")
     a = ap.parse_args()
     results = []
     pats = sorted(glob.glob(os.path.join(VERIF, "selftest", "mutants", "*.diff"))) + \
         sorted(glob.glob(os.path.join(VERIF, "selftest", "preserving", "*.diff"))) + \
         sorted(glob.glob(os.path.join(VERIF, "seeded", "*", "patch.diff")))
-    for p in pats:
-        if a.only and a.only not in p:
-            continue
+    todo = [p for p in pats if not a.only or a.only in p]
+    import threading
+    from concurrent.futures import ThreadPoolExecutor
+    gitlock = threading.Lock()
+    outlock = threading.Lock()
+
+    def one(p):
+        out = []
         txt = open(p).read()
         preserving = "/preserving/" in p
         m = re.search(r"^# expect: (.*)$", txt, re.M)
@@ -42,15 +48,15 @@ def main():
         props = a.props.split(",") if a.props else (ALL if (preserving or a.all_props) else expect)
         wt = tempfile.mkdtemp(prefix="zkv-mut-")
         os.rmdir(wt)
-        r = sh("git", "-C", "/repo", "worktree", "add", "--detach", wt, "HEAD")
+        with gitlock:
+            r = sh("git", "-C", "/repo", "worktree", "add", "--detach", wt, "HEAD")
         if r.returncode:
-            print("worktree failed", r.stderr); continue
+            return (os.path.relpath(p, VERIF), "PATCH-DOES-NOT-APPLY", ["worktree failed " + r.stderr[:200]]), out
         try:
             r = sh("git", "-C", wt, "apply", "--whitespace=nowarn", p)
             if r.returncode:
-                results.append((p, "PATCH-DOES-NOT-APPLY", r.stderr.strip()[:200]))
-                print("!! %s does not apply: %s" % (os.path.basename(p), r.stderr.strip()[:300]))
-                continue
+                out.append("!! %s does not apply: %s" % (os.path.basename(p), r.stderr.strip()[:300]))
+                return (os.path.relpath(p, VERIF), "PATCH-DOES-NOT-APPLY", [r.stderr.strip()[:200]]), out
             fired, silent, broken = [], [], []
             reports = []
             for pid in props:
@@ -60,7 +66,7 @@ def main():
                        env=dict(os.environ, ZKV_EVID_DIR=tempfile.gettempdir() + "/zkv-selftest-evid"))
                 if "fact extraction failed" in (r.stderr + r.stdout):
                     broken.append(pid)
-                    print(r.stderr[-1500:])
+                    out.append(r.stderr[-1500:])
                     break
                 if r.returncode == 0:
                     silent.append(pid)
@@ -72,12 +78,12 @@ def main():
                     if not preserving and pid in expect:
                         for line in r.stdout.splitlines():
                             if line.startswith("  rule=") or line.startswith("    "):
-                                print("      " + line.strip()[:220])
+                                out.append("      " + line.strip()[:220])
                     elif preserving or pid not in expect:
-                        print("   [%s fired on %s]" % (pid, os.path.basename(p)))
+                        out.append("   [%s fired on %s]" % (pid, os.path.basename(p)))
                         for line in r.stdout.splitlines():
                             if line.startswith("  rule=") or line.startswith("    "):
-                                print("      " + line.strip()[:220])
+                                out.append("      " + line.strip()[:220])
             name = os.path.relpath(p, VERIF)
             if broken:
                 status = "DOES-NOT-COMPILE"
@@ -86,11 +92,26 @@ def main():
             else:
                 missed = [e for e in expect if e in silent]
                 status = ("caught by " + ",".join(fired)) if fired and not missed else ("MISSED " + ",".join(missed) + (" (caught by " + ",".join(fired) + ")" if fired else ""))
-            print("%-60s %s" % (name, status))
-            results.append((name, status, reports))
+            out.append("%-60s %s" % (name, status))
+            return (name, status, reports), out
         finally:
-            sh("git", "-C", "/repo", "worktree", "remove", "--force", wt)
+            with gitlock:
+                sh("git", "-C", "/repo", "worktree", "remove", "--force", wt)
             shutil.rmtree(wt, ignore_errors=True)
+
+    def wrapped(p):
+        try:
+            res, out = one(p)
+        except Exception as e:
+            res, out = (os.path.relpath(p, VERIF), "DOES-NOT-COMPILE (runner error %r)" % (e,), []), []
+        with outlock:
+            for l in out:
+                print(l)
+            sys.stdout.flush()
+        return res
+
+    with ThreadPoolExecutor(max_workers=a.jobs) as ex:
+        results = list(ex.map(wrapped, todo))
     bad = [r for r in results if "MISSED" in r[1] or "FALSE-ALARM" in r[1] or "DOES-NOT" in r[1] or "PATCH" in r[1]]
     print("\n%d patches, %d problems" % (len(results), len(bad)))
     lr = os.path.join(VERIF, "selftest", "last_result.json")
